@@ -435,6 +435,10 @@ class DataFile:
       # skip user data and reserved blocks
       return
 
+    if tti.CF == 0x01:
+      # skip comment blocks, whose text field contains translator comments and not subtitle data
+      return
+
     if not self.is_in_extension:
       self.tti_tf = b''
 
